@@ -48,6 +48,7 @@ type World struct {
 	sDrain    map[string]bool
 	step      int
 	termDone  atomic.Int64 // terminated-application callbacks that have run to completion
+	goneKeys  [][2]string  // (app, key) of allocations the core released on its own (the shim no longer owns them)
 	dead      bool         // the core hung: the trace cannot continue
 	unsettled bool         // the settle barrier timed out (harness fault, never a verdict)
 	lastState M
@@ -333,6 +334,8 @@ func (w *World) Apply(op M) (line M) {
 			w.Conf = c
 		}
 		line["conf"] = c
+	case "bad":
+		w.applyBad(op, line)
 	case "deny":
 		w.H.SetDeny(gs(op, "key"), gs(op, "node"), true)
 	case "cleanQueues":
@@ -432,3 +435,5 @@ func (w *World) sDrained(node string, d bool) {
 		w.sDrain[node] = d
 	}
 }
+
+func sortStrings(s []string) { sort.Strings(s) }
